@@ -345,6 +345,13 @@ func checkEnvelopeInner(c envCase, r *h.Rec) error {
 		if len(f[0].content) != 1 || int(f[0].content[0]) != ver {
 			return fmt.Errorf("recipient info %d has version %x, want %d: %s", i, f[0].content, ver, desc())
 		}
+		wantAlg := pkcs7.OIDKeyEncryptionAlgorithmSM2
+		if who.kind == "rsa" {
+			wantAlg = pkcs7.OIDEncryptionAlgorithmRSA
+		}
+		if len(f[2].children) < 1 || oidString(f[2].children[0].content) != wantAlg.String() {
+			return fmt.Errorf("recipient info %d (%s key): key encryption algorithm is not %s: %s", i, who.kind, wantAlg, desc())
+		}
 		ek := f[3].content
 		switch {
 		case who.kind == "rsa":
@@ -362,6 +369,16 @@ func checkEnvelopeInner(c envCase, r *h.Rec) error {
 				return fmt.Errorf("recipient info %d: wrapped key is not the ASN.1 SM2 ciphertext SEQUENCE{x, y, hash, ciphertext}: %x: %s", i, ek, desc())
 			}
 		}
+	}
+	edVersion := 1 // GB/T 35275; RFC 2315 EnvelopedData: 0; key-identifier recipients: 2
+	switch {
+	case c.API == "Encrypt" || c.API == "Session":
+		edVersion = 0
+	case skiAPI:
+		edVersion = 2
+	}
+	if len(v.version.content) != 1 || int(v.version.content[0]) != edVersion {
+		return fmt.Errorf("EnvelopedData version %x, want %d: %s", v.version.content, edVersion, desc())
 	}
 	ct, err := octets(v.encNode)
 	if err != nil {
